@@ -6,7 +6,7 @@ import (
 	"os"
 	"strconv"
 
-	_ "verif/checks"
+	_ "verif/checks/all"
 	"verif/internal/vc"
 )
 
